@@ -561,4 +561,269 @@ Section RW.
           destruct (Nat.eq_dec up t) as [->|Dup]; [|eapply PEND; eauto].
           rewrite Ht in Hp. injection Hp as <-. exfalso. apply D. unfold i0. rewrite Pp. reflexivity.
   Qed.
+  Lemma nth_repeat0 j n : nth j (repeat 0 n) 0 = 0.
+  Proof. revert j; induction n as [|n IH]; intros [|j]; cbn; auto. Qed.
+
+  Lemma init_inv progs :
+    Z.of_nat (length progs) < 2147483648 -> Forall (wfp MIdle) progs -> Inv (init N progs).
+  Proof.
+    intros HL F. unfold init.
+    assert (G : forall th, In th (map (fun p => TH PStart p [] MIdle) progs) -> tpc th = PStart /\ tmode th = MIdle /\ wfp MIdle (prog th)).
+    { intros th H. apply in_map_iff in H. destruct H as [p [<- Hp]]. cbn. rewrite Forall_forall in F. auto. }
+    set (ths := map (fun p => TH PStart p [] MIdle) progs) in *.
+    assert (O0 : forall j, nown ths j = 0).
+    { intros j. apply sumZ_zero. intros x Hx. destruct (G x Hx) as (P & M & _). unfold ownz, own_range. rewrite M, P. cbn. destruct (j <? 0)%nat eqn:E; [apply Nat.ltb_lt in E; lia | reflexivity]. }
+    assert (C0 : forall j, ncnt ths j = 0).
+    { intros j. apply sumZ_zero. intros x Hx. destruct (G x Hx) as (P & M & _). unfold rdz, rd. rewrite M, P. reflexivity. }
+    split; [|split; [|split; [|split]]].
+    - unfold ths. cbn [threads]. rewrite map_length. exact HL.
+    - split; [apply repeat_length|]. intros j Hj. cbn [words threads]. rewrite nth_repeat0, O0, C0. lia.
+    - apply Forall_forall. intros x Hx. destruct (G x Hx) as (P & M & W). unfold wf_thread. rewrite M, P. exact W.
+    - intros x y j Hx _ Hd _. destruct (G x Hx) as (P & M & _). unfold drain_upto in Hd. rewrite M, P in Hd. lia.
+    - intros i (b & k & Hb & Pb) _. destruct (G b Hb) as (P & _). congruence.
+  Qed.
+
+  Theorem reach_Inv progs s :
+    Z.of_nat (length progs) < 2147483648 -> Forall (wfp MIdle) progs -> reach (step N K) (init N progs) s -> Inv s.
+  Proof.
+    intros HL F R. apply (reach_inv (step N K) Inv (init N progs)); [apply init_inv; assumption | | exact R].
+    intros s1 t ch s1' ch' site I E. eapply step_inv; eauto.
+  Qed.
+  (* ---------- mutual exclusion ---------- *)
+  Lemma mode_w_owns th j : tmode th = MW -> (j < N)%nat -> ownz th j = 1.
+  Proof. intros M Hj. unfold ownz, own_range. rewrite M. cbn [fst snd]. nat_cases; cbn; lia. Qed.
+
+  Theorem mutual_exclusion s t1 t2 th1 th2 :
+    Inv s -> t1 <> t2 -> nth_error (threads s) t1 = Some th1 -> nth_error (threads s) t2 = Some th2 ->
+    tmode th1 = MW -> tmode th2 = MIdle.
+  Proof.
+    intros (HL & (HWl & HW) & HT & HE & HNL) D H1 H2 M1.
+    destruct (tmode th2) eqn:M2; [reflexivity | exfalso | exfalso].
+    - destruct (HW O N_pos) as [_ Ho].
+      pose proof (sumZ_ge2 (fun th => ownz th O) _ _ _ _ _ (fun y => proj1 (ownz_range y O)) D H1 H2) as G. cbn in G.
+      rewrite (mode_w_owns _ _ M1 N_pos), (mode_w_owns _ _ M2 N_pos) in G. unfold nown in Ho. lia.
+    - assert (W2 : wf_thread th2) by (rewrite Forall_forall in HT; apply HT; eapply nth_error_In; eauto).
+      assert (Hi : (i < N)%nat) by (unfold wf_thread in W2; rewrite M2 in W2; tauto).
+      eapply (HE th1 th2 i); eauto using nth_error_In. unfold drain_upto. rewrite M1. exact Hi.
+  Qed.
+  (* ---------- results of the try operations ---------- *)
+  Lemma res_next th : res (next N th) = res th.
+  Proof. unfold next. destruct (prog th); reflexivity. Qed.
+
+  Lemma tstep_res w th w' th' site wake :
+    tstep N K w th = Some (w', th', site, wake) ->
+    res th' = res th \/
+    (res th' = (r_try, 1) :: res th /\ tmode th' = MW /\ tpc th' = PCsEnter) \/
+    (res th' = (r_try, 0) :: res th /\ exists n, th' = try_failed N th n) \/
+    (exists i, res th' = (r_tls, 1) :: res th /\ tmode th' = MR i /\ tpc th' = PCsEnter) \/
+    (res th' = (r_tls, 0) :: res th /\ exists n, th' = next N (skip (logr th r_tls 0) n)).
+  Proof.
+    unfold tstep, drained, rel_done, try_failed. intros E.
+    destruct (tpc th); try discriminate; repeat ztest E; injection E as <- <- _ <-;
+      try (destruct k); try (destruct i); try (destruct (S _ <? N)%nat); rewrite ?res_next; cbn [res goto acquire logr skip tmode tpc];
+      try (left; reflexivity);
+      try (right; left; repeat split; reflexivity);
+      try (right; right; left; split; [reflexivity | eexists; reflexivity]);
+      try (right; right; right; left; eexists; repeat split; reflexivity);
+      try (right; right; right; right; split; [reflexivity | eexists; reflexivity]).
+  Qed.
+
+  Lemma list_neq_cons {A} (x : A) l : l <> x :: l.
+  Proof. induction l as [|a l IH]; [discriminate|]. intros E. injection E as -> E. exact (IH E). Qed.
+
+  Lemma tstep_fail_spec w th w' th' site wake tag :
+    wf_thread th -> tstep N K w th = Some (w', th', site, wake) -> res th' = (tag, 0) :: res th ->
+    tmode th' = MIdle /\ forall j, ownz th' j = 0 /\ rdz th' j = 0.
+  Proof.
+    intros W E R. destruct th as [p pr rs m]. unfold wf_thread in W; cbn [tpc tmode prog] in W. cbn [res] in R.
+    destruct m; [| destruct W as [_ W] | destruct W as [_ W]];
+      destruct p; try contradiction; unfold tstep, drained, rel_done, try_failed in E; cbn [tpc tmode] in E; try discriminate;
+      repeat ztest E; injection E as <- <- _ <-;
+      try (destruct k); try match goal with H : context [match ?i with O => _ | S _ => _ end] |- _ => destruct i end;
+      try (destruct (S _ <? N)%nat); rewrite ?res_next in R; cbn [res goto acquire logr skip] in R;
+      try (exfalso; exact (list_neq_cons _ _ R)); try (exfalso; injection R; intros; discriminate);
+      repeat match goal with H : _ /\ _ |- _ => destruct H end.
+    all: match goal with Ws : wfp MIdle (skipn _ _) |- _ => use_next_idle Ws end; split; [assumption | intros jj; split; auto].
+  Qed.
+  Lemma step_thread s t ch s' ch' site th :
+    step N K s t ch = Some (s', ch', site) -> nth_error (threads s) t = Some th ->
+    exists w' th' wake, tstep N K (nth (pslot (tpc th)) (words s) 0) th = Some (w', th', site, wake) /\
+                        nth_error (threads s') t = Some th'.
+  Proof.
+    intros E Ht. unfold step in E. rewrite Ht in E.
+    destruct (tstep N K (nth (pslot (tpc th)) (words s) 0) th) as [[[[w' th'] site'] wake]|] eqn:Et; [|discriminate].
+    injection E as <- _ <-. exists w', th', wake. split; [reflexivity|]. cbn [threads].
+    destruct wake.
+    - eapply nth_error_set_nth_eq. unfold wake_all. erewrite map_nth_error; eauto.
+    - eapply nth_error_set_nth_eq; eauto.
+  Qed.
+
+  Theorem try_success_enters s t ch s' ch' site th th' :
+    Inv s -> step N K s t ch = Some (s', ch', site) ->
+    nth_error (threads s) t = Some th -> nth_error (threads s') t = Some th' ->
+    (res th' = (r_try, 1) :: res th ->
+       tmode th' = MW /\ forall t2 th2, t2 <> t -> nth_error (threads s') t2 = Some th2 -> tmode th2 = MIdle) /\
+    (res th' = (r_tls, 1) :: res th ->
+       exists i, tmode th' = MR i /\ forall t2 th2, nth_error (threads s') t2 = Some th2 -> tmode th2 <> MW).
+  Proof.
+    intros I E Ht Ht'. pose proof (step_inv _ _ _ _ _ _ I E) as I'.
+    destruct (step_thread _ _ _ _ _ _ _ E Ht) as (w' & th'' & wake & Et & Ht''). rewrite Ht' in Ht''. injection Ht'' as <-.
+    pose proof (tstep_res _ _ _ _ _ _ Et) as R. unfold r_try, r_tls in *.
+    split; intros Rr; rewrite Rr in R.
+    - destruct R as [R|[(R & M & P)|[(R & _)|[(i & R & _)|(R & _)]]]]; try (exfalso; symmetry in R; exact (list_neq_cons _ _ R)); try discriminate.
+      split; [exact M|]. intros t2 th2 D H2. eapply (mutual_exclusion s' t t2); eauto.
+    - destruct R as [R|[(R & M & P)|[(R & _)|[(i & R & M & _)|(R & _)]]]]; try (exfalso; symmetry in R; exact (list_neq_cons _ _ R)); try discriminate.
+      exists i. split; [exact M|]. intros t2 th2 H2 M2.
+      destruct (Nat.eq_dec t2 t) as [->|D]; [rewrite Ht' in H2; injection H2 as <-; congruence|].
+      pose proof (mutual_exclusion s' t2 t _ _ I' D H2 Ht' M2). congruence.
+  Qed.
+
+  Theorem try_failure_no_trace s t ch s' ch' site th th' tag :
+    Inv s -> step N K s t ch = Some (s', ch', site) ->
+    nth_error (threads s) t = Some th -> nth_error (threads s') t = Some th' ->
+    res th' = (tag, 0) :: res th ->
+    tmode th' = MIdle /\ forall j, ownz th' j = 0 /\ rdz th' j = 0.
+  Proof.
+    intros I E Ht Ht' R.
+    destruct (step_thread _ _ _ _ _ _ _ E Ht) as (w' & th'' & wake & Et & Ht''). rewrite Ht' in Ht''. injection Ht'' as <-.
+    destruct I as (_ & _ & HT & _). rewrite Forall_forall in HT.
+    eapply tstep_fail_spec; eauto. apply HT. eapply nth_error_In; eauto.
+  Qed.
+  (* ---------- no lost wake-up, no sleep deadlock ---------- *)
+  Theorem quiescent_not_lost s :
+    Inv s -> (forall th i k, In th (threads s) -> tpc th <> PRelWake i k) ->
+    forall th i k, In th (threads s) -> tpc th = PBlocked i k -> nth i (words s) 0 <> WB.
+  Proof.
+    intros (_ & _ & _ & _ & HNL) NP th i k Hth P E.
+    destruct (HNL i (ex_intro _ th (ex_intro _ k (conj Hth P))) E) as (p & kp & Hp & Pp). exact (NP _ _ _ Hp Pp).
+  Qed.
+
+  Theorem sleeper_owns_writer_bit s th i k :
+    Inv s -> In th (threads s) -> tpc th = PBlocked i k -> (i < N)%nat /\ ownz th i = 1 /\ tmode th = MIdle.
+  Proof.
+    intros (_ & _ & HT & _) Hth P. rewrite Forall_forall in HT. pose proof (HT _ Hth) as W.
+    split; [|split].
+    - pose proof (pslot_lt _ W) as H. rewrite P in H. exact H.
+    - eapply blocked_owns; eauto.
+    - unfold wf_thread in W. rewrite P in W. destruct (tmode th); [reflexivity | destruct W as [_ []] | destruct W as [_ []]].
+  Qed.
+
+  Lemma tids_where_nil f ths i : tids_where f ths i = [] -> forall th, In th ths -> f (tpc th) = false.
+  Proof.
+    revert i; induction ths as [|a l IH]; intros i H th Hth; [contradiction|]. cbn in H.
+    destruct (f (tpc a)) eqn:Fa; [discriminate|]. destruct Hth as [<-|Hth]; [exact Fa | eapply IH; eauto].
+  Qed.
+
+  Lemma forallb_false_ex {A} (f : A -> bool) l : forallb f l = false -> exists x, In x l /\ f x = false.
+  Proof.
+    induction l as [|a l IH]; cbn; [discriminate|]. destruct (f a) eqn:Fa; cbn.
+    - intros H. destruct (IH H) as [x [Hx Fx]]. exists x. auto.
+    - intros _. exists a. auto.
+  Qed.
+
+  Theorem no_sleep_deadlock s : strict = true -> Inv s -> finished s = false -> cands s <> [].
+  Proof.
+    intros St I Hf Hc. pose proof I as (HL & (HWl & HW) & HT & HE & HNL). rewrite Forall_forall in HT.
+    pose proof (tids_where_nil _ _ _ Hc) as NR.
+    destruct (forallb_false_ex _ _ Hf) as [b [Hb Pb]].
+    pose proof (NR _ Hb) as Rb. destruct (tpc b) eqn:P; try discriminate. clear Pb Rb.
+    destruct (sleeper_owns_writer_bit _ _ _ _ I Hb P) as (Hi & Ob & Mb).
+    assert (C0 : ncnt (threads s) i = 0).
+    { apply sumZ_zero. intros x Hx. pose proof (NR _ Hx) as Rx. pose proof (HT _ Hx) as Wx. unfold rdz, rd. unfold wf_thread in Wx.
+      destruct (tpc x) eqn:Px; try discriminate; destruct (tmode x); cbn; try reflexivity;
+        destruct Wx as [_ Wx]; try contradiction; destruct Wx; congruence. }
+    destruct (HW i Hi) as [Hw Ho].
+    apply In_nth_error in Hb. destruct Hb as [ub Hb].
+    pose proof (sumZ_ge (fun th => ownz th i) _ _ _ (fun y => proj1 (ownz_range y i)) Hb) as G. cbn in G. unfold nown in *.
+    assert (Hwb : nth i (words s) 0 = WB) by (rewrite Hw, C0; replace (sumZ (fun th : thread => ownz th i) (threads s)) with 1 by lia; lia).
+    destruct (HNL i (ex_intro _ b (ex_intro _ k (conj (nth_error_In _ _ Hb) P))) Hwb) as (p & kp & Hp & Pp).
+    pose proof (NR _ Hp) as Rp. rewrite Pp in Rp. discriminate.
+  Qed.
+
+  Theorem all_done_words_zero s : strict = true -> Inv s -> finished s = true -> forall j, (j < N)%nat -> nth j (words s) 0 = 0.
+  Proof.
+    intros St (HL & (HWl & HW) & HT & HE & HNL) Hf j Hj. rewrite Forall_forall in HT. unfold finished in Hf. rewrite forallb_forall in Hf.
+    destruct (HW j Hj) as [-> _].
+    assert (O0 : nown (threads s) j = 0).
+    { apply sumZ_zero. intros x Hx. pose proof (Hf _ Hx) as Px. pose proof (HT _ Hx) as Wx. unfold ownz, own_range. unfold wf_thread in Wx.
+      destruct (tpc x) eqn:P; try discriminate. destruct (tmode x); [cbn; nat_cases; cbn; lia | destruct Wx as [_ [_ Wx]]; congruence | destruct Wx as [_ [_ Wx]]; congruence]. }
+    assert (C0 : ncnt (threads s) j = 0).
+    { apply sumZ_zero. intros x Hx. pose proof (Hf _ Hx) as Px. pose proof (HT _ Hx) as Wx. unfold rdz, rd. unfold wf_thread in Wx.
+      destruct (tpc x) eqn:P; try discriminate. destruct (tmode x); [reflexivity | destruct Wx as [_ [_ Wx]]; congruence | destruct Wx as [_ [_ Wx]]; congruence]. }
+    rewrite O0, C0. lia.
+  Qed.
 End RW.
+
+(* ---------- the theorems on reachable states (any N >= 1, any K, any number of threads, all schedules) ---------- *)
+Definition scripts_ok (N : nat) (strict : bool) (progs : list (list op)) : Prop :=
+  (0 < N)%nat /\ Z.of_nat (length progs) < 2147483648 /\ Forall (wfp N strict MIdle) progs.
+
+Lemma reach_inv_rw N K strict progs s :
+  scripts_ok N strict progs -> reach (step N K) (init N progs) s -> Inv N strict s.
+Proof. intros (HN & HL & F) R. eapply reach_Inv; eauto. Qed.
+
+Lemma reach_exclusion N K strict progs s :
+  scripts_ok N strict progs -> reach (step N K) (init N progs) s ->
+  forall t1 t2 th1 th2, t1 <> t2 -> nth_error (threads s) t1 = Some th1 -> nth_error (threads s) t2 = Some th2 ->
+  tmode th1 = MW -> tmode th2 = MIdle.
+Proof. intros S R t1 t2 th1 th2 D H1 H2 M. eapply (mutual_exclusion N strict); eauto; [apply S | eapply reach_inv_rw; eauto]. Qed.
+
+Lemma reach_try_success N K strict progs s t ch s' ch' site th th' :
+  scripts_ok N strict progs -> reach (step N K) (init N progs) s -> step N K s t ch = Some (s', ch', site) ->
+  nth_error (threads s) t = Some th -> nth_error (threads s') t = Some th' ->
+  (res th' = (r_try, 1) :: res th ->
+     tmode th' = MW /\ forall t2 th2, t2 <> t -> nth_error (threads s') t2 = Some th2 -> tmode th2 = MIdle) /\
+  (res th' = (r_tls, 1) :: res th ->
+     exists i, tmode th' = MR i /\ forall t2 th2, nth_error (threads s') t2 = Some th2 -> tmode th2 <> MW).
+Proof. intros S R E H1 H2. eapply (try_success_enters N K strict); eauto; [apply S | eapply reach_inv_rw; eauto]. Qed.
+
+Lemma reach_try_failure N K strict progs s t ch s' ch' site th th' tag :
+  scripts_ok N strict progs -> reach (step N K) (init N progs) s -> step N K s t ch = Some (s', ch', site) ->
+  nth_error (threads s) t = Some th -> nth_error (threads s') t = Some th' ->
+  res th' = (tag, 0) :: res th ->
+  tmode th' = MIdle /\ (forall j, ownz N th' j = 0 /\ rdz th' j = 0) /\
+  (forall j, (j < N)%nat -> nth j (words s') 0 = WB * nown N (threads s') j + ncnt (threads s') j).
+Proof.
+  intros S R E H1 H2 Rr. pose proof (reach_inv_rw _ _ _ _ _ S R) as I.
+  destruct (try_failure_no_trace N K strict (proj1 S) _ _ _ _ _ _ _ _ _ I E H1 H2 Rr) as [M G].
+  split; [exact M|]. split; [exact G|]. intros j Hj.
+  pose proof (step_inv N K strict (proj1 S) _ _ _ _ _ _ I E) as (_ & (_ & HW) & _). apply HW. exact Hj.
+Qed.
+
+Lemma reach_no_lost_wakeup N K strict progs s :
+  scripts_ok N strict progs -> reach (step N K) (init N progs) s ->
+  forall i, (exists th k, In th (threads s) /\ tpc th = PBlocked i k) -> nth i (words s) 0 = WB ->
+            exists th k, In th (threads s) /\ tpc th = PRelWake i k.
+Proof. intros S R. pose proof (reach_inv_rw _ _ _ _ _ S R) as (_ & _ & _ & _ & HNL). exact HNL. Qed.
+
+Lemma reach_quiescent_not_lost N K strict progs s :
+  scripts_ok N strict progs -> reach (step N K) (init N progs) s ->
+  (forall th i k, In th (threads s) -> tpc th <> PRelWake i k) ->
+  forall th i k, In th (threads s) -> tpc th = PBlocked i k -> nth i (words s) 0 <> WB.
+Proof. intros S R. eapply quiescent_not_lost. eapply reach_inv_rw; eauto. Qed.
+
+Lemma reach_sleeper_owns N K strict progs s th i k :
+  scripts_ok N strict progs -> reach (step N K) (init N progs) s ->
+  In th (threads s) -> tpc th = PBlocked i k -> (i < N)%nat /\ ownz N th i = 1 /\ tmode th = MIdle.
+Proof. intros S R. eapply sleeper_owns_writer_bit; [apply S | eapply reach_inv_rw; eauto]. Qed.
+
+Lemma reach_no_sleep_deadlock N K progs s :
+  scripts_ok N true progs -> reach (step N K) (init N progs) s -> finished s = false -> cands s <> [].
+Proof. intros S R. eapply (no_sleep_deadlock N true); [apply S | reflexivity | eapply reach_inv_rw; eauto]. Qed.
+
+Lemma reach_all_done_words_zero N K progs s :
+  scripts_ok N true progs -> reach (step N K) (init N progs) s -> finished s = true ->
+  forall j, (j < N)%nat -> nth j (words s) 0 = 0.
+Proof. intros S R. eapply (all_done_words_zero N true); [apply S | reflexivity | eapply reach_inv_rw; eauto]. Qed.
+
+Lemma run_rw_reach fuel N K progs sched : reach (step N K) (init N progs) (fst (fst (run_rw fuel N K progs sched))).
+Proof. unfold run_rw. apply run_reach. apply reach_refl. Qed.
+
+(* the judge's executable discipline check implies the Prop used above *)
+Lemma scripts_ok_of_wfb N strict progs :
+  (0 < N)%nat -> Z.of_nat (length progs) < 2147483648 ->
+  forallb (fun p => wfb N strict (S (length p)) MIdle p) progs = true -> scripts_ok N strict progs.
+Proof.
+  intros HN HL H. split; [exact HN|]. split; [exact HL|].
+  rewrite forallb_forall in H. apply Forall_forall. intros p Hp. eapply wfb_sound. apply H. exact Hp.
+Qed.
